@@ -153,11 +153,16 @@ def build(tree, f, label, *, kind=None, data_id=None, node_id=None):
     return nodes
 
 
+FORCE_UNIQUE = [False]  # set by a caller that wants trees without any clone (e.g. to create the only clones later, by set_data)
+
+
 def clone_labeling(rng: random.Random, f, alphabet, *, tries=30):
     """Assign labels from `alphabet` such that siblings differ; forces clones when
     the alphabet is small.  Returns list label per pre-order index, or None."""
     par = parents(f)
     n = len(par)
+    if FORCE_UNIQUE[0]:
+        return None  # the caller falls back to one label per node: a tree that never had a clone
     for _ in range(tries):
         labs = [None] * n
         ok = True
